@@ -37,9 +37,9 @@ m = {
     "setup_cmd": "cd /verif && export GOFLAGS=-mod=mod GOPROXY=off && mkdir -p bin evidence/replays && (cd engine && go build -o ../bin/gosym ./cmd/gosym && go vet ./smt ./exec >/dev/null 2>&1; true) && ./check C10 quick -no-evidence >/dev/null",
     "hooks": {
         "guard": "verif",
-        "enable": "none needed: harnesses are injected by go/packages overlay (symbolic run) and `go test -overlay` (native replay); no file in /repo carries a verif build tag",
+        "enable": "-tags verif (go/packages BuildFlags for the symbolic run, `go test -tags verif -overlay ...` for native replays); harness files are injected by overlay, never written to /repo",
         "baseline_off_cmd": "cd /repo && GOFLAGS=-mod=mod GOPROXY=off go test -vet=off -count=1 ./...",
-        "source_commits": [],
+        "source_commits": ["ce7b986"],
         "add_only": True,
     },
     "engines": [{"name": "gosym", "path": "/verif/engine", "serves_properties": [c['property_id'] for c in checks],
